@@ -9,6 +9,7 @@ and then use trimesh operations on them at any point.
 """
 
 import abc
+from copy import deepcopy
 
 import numpy as np
 
@@ -145,9 +146,11 @@ class Primitive(Trimesh):
         # copy metadata
         primitive_copy.metadata = self.metadata.copy()
 
+        # `to_dict` only has the serialized arguments so copy every stored
+        # value: attributes it leaves out (`sections`, `subdivisions`) would
+        # fall back to their defaults and arrays would be shared otherwise
         for k, v in self._data.data.items():
-            if k not in primitive_copy._data:
-                primitive_copy._data[k] = v
+            primitive_copy._data[k] = deepcopy(v)
 
         return primitive_copy
 
